@@ -105,8 +105,16 @@ func (r *TaskRunner) SetVariables(vars variables.Container) *TaskRunner {
 // Run run provided task -> highly modified from taskctl/runner/runner.go
 // TaskRunner first compiles task into linked list of Jobs, then passes those jobs to Executor
 func (r *TaskRunner) Run(t *task.Task) error {
-	// Keep track of running tasks for graceful shutdown and waiting until all tasks are canceled
+	// Keep track of running tasks for graceful shutdown and waiting until all tasks are canceled.
+	// The wait group must not be incremented once Cancel is waiting on it (Add concurrent to Wait is a
+	// misuse of sync.WaitGroup), so a canceled runner is detected under the cancel mutex first.
+	r.cancelMutex.RLock()
+	if r.canceling {
+		r.cancelMutex.RUnlock()
+		return r.ctx.Err()
+	}
 	r.wg.Add(1)
+	r.cancelMutex.RUnlock()
 	defer r.wg.Done()
 
 	if err := r.ctx.Err(); err != nil {
